@@ -52,6 +52,7 @@ type tsyncScript struct {
 	LogPolicy    bool     `json:"log_policy"`     // the policy under test also has a group and a default with the LOG *action* (which has nothing to do with the log flag)
 	Unpriv       bool     `json:"unprivileged"`   // the child runs as uid 65534: without no_new_privs the kernel refuses (EACCES), and a nil result is only acceptable if every thread is covered
 	OuterDenyAux bool     `json:"outer_deny_aux"` // the process runs under a filter that answers EPERM to every seccomp(2) operation other than SET_MODE_STRICT / SET_MODE_FILTER (support probes such as GET_ACTION_AVAIL fail, loads work)
+	OuterEINVAL  uint32   `json:"outer_einval_mask"` // the process runs under a filter that answers EINVAL to seccomp(SET_MODE_FILTER, flags, ..) whenever flags has a bit of this mask (a kernel that does not know those flag bits yet)
 	OuterENOSYS  bool     `json:"outer_enosys"`   // the whole process already runs under a filter that answers ENOSYS to seccomp(2) (as if the kernel lacked it)
 	ExeName      string   `json:"exe_name"`       // the child is started under this executable name (what /proc/<pid>/stat and comm show), e.g. one with blanks and parentheses
 }
@@ -201,6 +202,15 @@ func childTSync(args []string) {
 	if sc.OuterDenyAux {
 		// ld nr; jeq seccomp ? : allow; ld args[0]; jgt 1 -> ret ERRNO|EPERM; ret ALLOW
 		outer := rawProg{{0x20, 0, 0, 0}, {0x15, 0, 3, 317}, {0x20, 0, 0, 16}, {0x25, 0, 1, 1}, {0x06, 0, 0, 0x00050001}, {0x06, 0, 0, 0x7fff0000}}
+		syscall.RawSyscall(syscall.SYS_PRCTL, prSetNoNewPrivs, 1, 0)
+		if e := rawSeccompLoad(outer, len(outer), 1); e != 0 {
+			s := "outer filter could not be installed: " + e.Error()
+			rep.Err = &s
+		}
+	}
+	if sc.OuterEINVAL != 0 {
+		// ld nr; jeq seccomp ? : allow; ld args[0]; jeq SET_MODE_FILTER ? : allow; ld args[1]; jset mask -> ret ERRNO|EINVAL; ret ALLOW
+		outer := rawProg{{0x20, 0, 0, 0}, {0x15, 0, 5, 317}, {0x20, 0, 0, 16}, {0x15, 0, 3, 1}, {0x20, 0, 0, 24}, {0x45, 0, 1, sc.OuterEINVAL}, {0x06, 0, 0, 0x00050016}, {0x06, 0, 0, 0x7fff0000}}
 		syscall.RawSyscall(syscall.SYS_PRCTL, prSetNoNewPrivs, 1, 0)
 		if e := rawSeccompLoad(outer, len(outer), 1); e != 0 {
 			s := "outer filter could not be installed: " + e.Error()
